@@ -35,6 +35,14 @@ def run(ctx):
     pe = PathEnumerator(add, prog, ctx.summ)
     paths = [p for p in pe.paths() if p.exit_kind == "return"]
     cls = {"fill": [], "res": [], "gap-hit": [], "gap-skip": [], "other": []}
+    _lem = []
+
+    def lemma():
+        if not _lem:
+            from .common import gap_window_lemma
+            _lem.append(gap_window_lemma(ctx))
+            ctx.ok("R05-phases", RS + ":skip-window-invariant", _lem[0][1]) if _lem[0][0] else None
+        return _lem[0]
     order_ok = True
     for p in paths:
         facts = pe.path_facts(p)
@@ -49,6 +57,9 @@ def run(ctx):
         elif fv(fd, fill) is False and fv(fd, res_phase) is False and fv(fd, gap_guard) is True:
             cls["gap-hit"].append(p)
         elif fv(fd, fill) is False and fv(fd, res_phase) is False and fv(fd, gap_guard) is False:
+            cls["gap-skip"].append(p)
+        elif fv(fd, fill) is None and fv(fd, res_phase) is None and fv(fd, gap_guard) is False and lemma()[0]:
+            # the skip-window test hoisted in front of the phase tests: i < skip_until implies i >= 4k (inductive invariant of the type)
             cls["gap-skip"].append(p)
         else:
             cls["other"].append(p)
@@ -142,9 +153,12 @@ def run(ctx):
             g = gs[0]
             u_t = None
             want_p = mk("Div", ("cast", "f64", k_f), ("cast", "f64", mk("Add", i_f, const(1))))
-            okg = g[0] == "cast" and g[1] == "usize" and g[2][0] == "op" and g[2][1] == "floor" and g[2][2][0][0] == "op" and g[2][2][0][1] == "Div"
+            # `x as usize` truncates toward zero and saturates: it equals `x.floor() as usize` for every x (they differ only for
+            # negative non-integers, which both become 0), so the explicit floor is optional
+            q_ = g[2][2][0] if g[0] == "cast" and g[1] == "usize" and g[2][0] == "op" and g[2][1] == "floor" else (g[2] if g[0] == "cast" and g[1] == "usize" else None)
+            okg = q_ is not None and q_[0] == "op" and q_[1] == "Div"
             if okg:
-                num, den = g[2][2][0][2]
+                num, den = q_[2]
                 okg = num[0] == "op" and num[1] == "ln" and den == mk("ln", mk("Sub", const(1.0), want_p))
                 if okg:
                     u = num[2][0]
